@@ -1,7 +1,93 @@
-"""C06 - File-level obligations (see checks/file_common.py and DESIGN.md section 6)."""
-import sys, os
+"""C06 - no API call blocks forever (REDUCED SCOPE: stage-local progress obligations, composition on paper).
+
+The quantifier is over schedules; sequential contracts cannot enumerate them.  Machine-checked are the leaf facts the
+argument needs, each on the real wait predicates and call sites:
+ P1 every wait predicate equals its specification over the abstract view (C15/C16 jobs, relabelled),
+ P2 abort makes every predicate true,
+ P3 every mutator notifies the other side (ghost notify counters),
+ P4 pairwise exclusion lemmas: queue (capacity >= 1) and stream (request <= threshold), with the call-site facts
+    File() sets capacity 10 and threshold = container size, setDefaultLogContainerSize keeps threshold >= container,
+ P5 every worker declares end of stream on every exit path, also after an unexpected exception,
+ P6 close(): end-of-input declared / abort + flags before the joins, both workers joined.
+Composition (unchecked, listed as assumption): all shared state of a channel is accessed under its mutex; the
+wait-for graph is a chain, so deadlock needs a 2-cycle on one channel, a lost wake-up or a never-enabled wait.
+NOT covered: objects larger than the stream threshold (a single codec read of n > threshold bytes), see DESIGN.md.
+"""
+import sys, os, re
 sys.path.insert(0, os.path.dirname(os.path.dirname(os.path.abspath(__file__))))
-from run import core
-from checks import file_common
+from run import core, classinfo
+from checks import file_common, c15, c16
+
+
+def relabel(job, frm, keep):
+    """reuse a C15/C16 job for C06: the assertions named in keep are reported under C06"""
+    src = job.source
+    for k in keep:
+        src = src.replace('"%s/%s' % (frm, k), '"C06/%s' % k)
+    j = core.Job(job.name.replace(frm + '_', 'C06_'), src, route=job.route, flags=job.flags, functions=job.functions,
+                 unwind=job.unwind, canary_ids=job.canary_ids, timeout=job.timeout, loop_contracts=job.loop_contracts,
+                 labels=job.labels, bounded=job.bounded)
+    return j
+
+
+LEMMA = r'''
+#include <stdint.h>
+void harness(void)
+{
+    /* queue: reader blocked = !(abort || !empty || tellg >= fileSize); writer blocked = !(abort || size < capacity) */
+    _Bool abort_; uint32_t size, cap, tellg, fs;
+    _Bool rb = !(abort_ || size != 0 || tellg >= fs), wb = !(abort_ || size < cap);
+    __CPROVER_assert(!(cap >= 1) || !(rb && wb), "C06/lemma/queue-with-capacity-at-least-1-never-blocks-reader-and-writer-together");
+    /* stream: reader(n) blocked = !(abort || n + g <= p || n + g > fsz); writer blocked = !(abort || p - g < threshold) */
+    int64_t n, g, p, fsz, th;
+    __CPROVER_assume(n >= 0 && n <= ((int64_t)1 << 60) && g >= 0 && g <= ((int64_t)1 << 60) && p >= 0 && p <= ((int64_t)1 << 60));
+    _Bool srb = !(abort_ || n + g <= p || n + g > fsz), swb = !(abort_ || p - g < th);
+    __CPROVER_assert(!(n <= th) || !(srb && swb), "C06/lemma/stream-request-not-above-the-threshold-never-blocks-reader-and-writer-together");
+    __CPROVER_assert(0, "canary");
+}
+'''
+
+
+def extra(info):
+    L = 2
+    js = []
+    for j in c15.jobs(L, 600):
+        if j.name.endswith('setters_accessors_predicates'):
+            js.append(relabel(j, 'C15', ['UncompressedFile/read/wait-predicate', 'UncompressedFile/write/wait-predicate', 'UncompressedFile/writeContainer/wait-predicate',
+                                        'UncompressedFile/abort-releases-every-waiter', 'UncompressedFile/abort/sets-abort-and-notifies', 'UncompressedFile/setFileSize/sets-the-declared-end-wakes']))
+        if j.name.endswith('seekg') or j.name.endswith('writeContainer'):
+            js.append(relabel(j, 'C15', ['UncompressedFile/seekg/notifies', 'UncompressedFile/writeContainer/notifies']))
+    for j in c16.jobs():
+        if any(j.name.endswith(x) for x in ('read', 'write', 'read_waitpred', 'write_waitpred', 'abort', 'setFileSize')):
+            js.append(relabel(j, 'C16', ['ObjectQueue/read/wait-predicate', 'ObjectQueue/read/abort-releases', 'ObjectQueue/write/wait-predicate', 'ObjectQueue/write/abort-releases',
+                                        'ObjectQueue/abort/sets-abort-and-notifies', 'ObjectQueue/setFileSize/sets-declared-size-and-wakes', 'ObjectQueue/read/notifies', 'ObjectQueue/write/notifies']))
+    js.append(core.Job('C06_lemma_pairwise_exclusion', LEMMA, route='harness', flags=['--signed-overflow-check'], functions=['lemma over the wait predicates'],
+                       canary_ids=['harness.assertion.3'], timeout=120))
+    # File(): capacity 10, threshold = container size
+    fns = file_common.file_functions()
+    src = file_common.PRE + file_common.need(fns, 'File_ctor', 'File_defaultLogContainerSize') + '''
+void AbstractFile_ctor(struct AbstractFile *a) { }
+void FileStatistics_ctor(struct FileStatistics *s) { s->statisticsSize = 144; }
+void ObjectQueue_ctor(struct ObjectQueue *q) { q->m_bufferSize = 0xffffffffu; q->m_abort = 0; }
+void UncompressedFile_ctor(struct UncompressedFile *u) { u->m_defaultLogContainerSize = 0x20000; u->m_bufferSize = INT64_MAX; u->m_abort = 0; }
+void CompressedFile_ctor(struct CompressedFile *c) { c->copen = 0; }
+void harness(void)
+{
+    struct File f; reset_ghost(&f);
+    File_ctor(&f);
+    __CPROVER_assert(Q.m_bufferSize == 10 && Q.m_bufferSize >= 1, "C06/File/ctor/queue-capacity-is-10-(at-least-1)");
+    __CPROVER_assert(U.m_bufferSize == (int64_t)U.m_defaultLogContainerSize, "C06/File/ctor/stream-threshold-equals-the-container-size-the-compressor-asks-for");
+    __CPROVER_assert(!C.copen && f.compressionLevel == 1 && f.writeRestorePoints && f.currentObjectCount == 0 && f.currentUncompressedFileSize == 0, "C13/File/ctor/closed-with-documented-defaults");
+    __CPROVER_assert(0, "canary");
+}
+'''
+    js.append(core.Job('C06_File_ctor', src, route='harness', flags=file_common.FLAGS, functions=['File::File'], canary_ids=['harness.assertion.4'], timeout=120))
+    return js
+
+
 if __name__ == '__main__':
-    core.main_wrapper(lambda: file_common.run_property('C06'))
+    core.main_wrapper(lambda: file_common.run_property('C06', extra_jobs=extra, assumptions=[
+        'REDUCED SCOPE: schedules are not explored; the composition of the stage-local obligations into deadlock freedom is an argument on paper (DESIGN.md 6/C06)',
+        'all shared state of a channel is accessed under its mutex (syntactic fact recorded by the extractor for every method of UncompressedFile, ObjectQueue, CompressedFile)',
+        'a notified waiter re-evaluates its predicate (std::condition_variable contract)',
+        'NOT covered: a single object larger than the stream threshold (codec read of n > threshold bytes while the appender is held back) - reproduced natively as a hang, see DESIGN.md section 7']))
